@@ -220,6 +220,21 @@ func histCheck(prop, tier, level string) int {
 			}
 		}
 		specs = append(specs, nsqd.MicroSpec{State: "inflight", MemQ: 10, Ops: []string{"fin1", "rdy2", "pub"}})
+		if prop == "C03" {
+			// pause / unpause against idle, ready consumers: the flag, the wake-up of each
+			// consumer's pump and a publish, in every order
+			for _, mq := range []int64{10, 0} {
+				for _, ops := range [][]string{{"pause_ch"}, {"pause_ch", "pub"}, {"pause_t"}, {"pause_t", "pub"}, {"pause_ch", "unpause_ch"}, {"pause_ch", "rdy2_2"}} {
+					specs = append(specs, nsqd.MicroSpec{State: "ready", MemQ: mq, Ops: ops})
+				}
+				for _, ops := range [][]string{{"unpause_ch"}, {"unpause_ch", "pub"}, {"unpause_ch", "rdy2"}, {"unpause_ch", "pause_ch"}} {
+					specs = append(specs, nsqd.MicroSpec{State: "pausedq", MemQ: mq, Ops: ops})
+				}
+				for _, ops := range [][]string{{"unpause_t"}, {"unpause_t", "pub"}, {"unpause_t", "pause_t"}} {
+					specs = append(specs, nsqd.MicroSpec{State: "tpausedq", MemQ: mq, Ops: ops})
+				}
+			}
+		}
 		// ... and of the counters under plain consumer concurrency (two connections)
 		for _, st := range []string{"expired", "inflight", "held2"} {
 			for _, pr := range pairs([]string{"fin1", "req1", "touch1", "scan", "rdy2", "rdy2_2", "fin2", "req2"}) {
